@@ -74,7 +74,7 @@ static void exec_c11(const plan_t *p)
             if (inited) continue;
             base_serial = sa_serial(); base_live = sa_live_count();
             conf_reset_mirror();
-            simfs_set_call_failures((int)plan_get(p, "fdopen.fail", 0), (int)plan_get(p, "fchmod.fail", 0)); simfs_set_dir_grows((int)plan_get(p, "dir.grows", 0));      /* every cycle meets the same refusals, so a repeated cycle is still comparable */
+            simfs_set_call_failures((int)plan_get(p, "fdopen.fail", 0), (int)plan_get(p, "fchmod.fail", 0)); simfs_set_dir_grows((int)plan_get(p, "dir.grows", 0)); simfs_set_fdopen_read_failure((int)plan_get(p, "exec.readfail", 0));      /* every cycle meets the same refusals, so a repeated cycle is still comparable */
             spifconf_init_subsystem();
             cyc_fds = simfs_open_fds(); cyc_temps = simfs_live_temp_files(); cyc_dirs = simfs_open_dirs(); cyc_streams = simfd_open_streams(); cyc_spawnfiles = simfs_live_spawn_files();
             inited = 1; cycle++; cycle_from = conf_trace_count(); cycle_ops = 1469598103934665603ULL;
@@ -401,6 +401,8 @@ static void gen_c11(plan_t *p, rng_t *r)
         plan_knob(p, "dir.namelen", nls[rng_below(r, 6)]);
         bigdir = 1;
     } else bigdir = 0;
+    if (!bigdir && rng_chance(r, 1, 5)) plan_knob(p, "dir.ghost", 1);
+    if (rng_chance(r, 1, 10)) plan_knob(p, "exec.readfail", rng_range(r, 1, 2));      /* a command's output cannot be read back */      /* names in the directory that stat() cannot follow */
     for (int c = 0; c < ncycles && p->nops < PLAN_MAXOPS - 40; c++) {
         plan_op(p, 0, "init", 0);
         if (repeat && c > 0) {
